@@ -110,7 +110,7 @@ theorem pushScalar_phys (ext : Ext) (un : Bytes → String) (hun : ∀ s, un (st
     unfold pushScalar at h
     split at h
     · cases h
-      simp only [interpScalar] at hi
+      simp only [interpScalar_eq_old, normErr_ok_iff, interpScalarOld] at hi
       cases hi
       simp [pushL, noneL, erase, pushNone]
     · simp [notSupported, fail] at h
@@ -129,21 +129,21 @@ theorem pushScalar_phys (ext : Ext) (un : Bytes → String) (hun : ∀ s, un (st
     obtain ⟨h1, h1'⟩ := h1
     cases ty
     · obtain ⟨s, hs, rfl⟩ := h1 rfl
-      simp [bytesDT, interpScalar, hs] at hi
+      simp [bytesDT, interpScalar_eq_old, normErr_ok_iff, interpScalarOld, hs] at hi
       subst hi
       simp [pushL, erase, scalarL, bytesOfL]
     · obtain ⟨s, hs, rfl⟩ := h1 rfl
-      simp [bytesDT, interpScalar, hs] at hi
+      simp [bytesDT, interpScalar_eq_old, normErr_ok_iff, interpScalarOld, hs] at hi
       subst hi
       simp [pushL, erase, scalarL, bytesOfL]
     · have := h1' rfl
       subst this
-      simp [bytesDT, interpScalar] at hi
+      simp [bytesDT, interpScalar_eq_old, normErr_ok_iff, interpScalarOld] at hi
       subst hi
       simp [pushL, erase, scalarL, bytesOfL]
     · have := h1' rfl
       subst this
-      simp [bytesDT, interpScalar] at hi
+      simp [bytesDT, interpScalar_eq_old, normErr_ok_iff, interpScalarOld] at hi
       subst hi
       simp [pushL, erase, scalarL, bytesOfL]
   | bytesView p ty v views buf =>
@@ -162,7 +162,7 @@ theorem pushScalar_phys (ext : Ext) (un : Bytes → String) (hun : ∀ s, un (st
         split at hval
         · rename_i s heq
           cases hval
-          simp [viewDT, interpScalar, heq] at hi
+          simp [viewDT, interpScalar_eq_old, normErr_ok_iff, interpScalarOld, heq] at hi
           subst hi
           simp [bytesOfL, pushL]
         · simp [notSupported, fail] at hval
@@ -170,7 +170,7 @@ theorem pushScalar_phys (ext : Ext) (un : Bytes → String) (hun : ∀ s, un (st
         rw [if_neg (by rw [e]; decide)] at hval
         split at hval
         · cases hval
-          simp [viewDT, interpScalar] at hi
+          simp [viewDT, interpScalar_eq_old, normErr_ok_iff, interpScalarOld] at hi
           subst hi
           simp [bytesOfL, pushL]
         · simp [notSupported, fail] at hval
@@ -201,7 +201,7 @@ theorem pushScalar_phys (ext : Ext) (un : Bytes → String) (hun : ∀ s, un (st
         cases h4
         rw [setValidity_setV h3]
         have hl : bs.length = n := by simpa using hlen
-        simp [interpScalar, hl] at hi
+        simp [interpScalar_eq_old, normErr_ok_iff, interpScalarOld, hl] at hi
         subst hi
         simp [pushL, erase, scalarL, bytesOfL]
     · simp [notSupported, fail] at h
